@@ -475,6 +475,23 @@ func (b *builder) edit(prog []*scen.TestNode) []*scen.TestNode {
 			}
 		}
 	}
+	if has("retarget") && r.Bool(0.35) {
+		// a call now goes through another Config: its old slot becomes stale in one file
+		// while the same test id is addressed in another
+		var cands []*scen.Call
+		walkCalls(out, func(n *scen.TestNode, i int, c *scen.Call) {
+			if !scen.Standalone(c.API) {
+				cands = append(cands, c)
+			}
+		})
+		for k := 1 + r.Intn(2); k > 0 && len(cands) > 0; k-- {
+			c := cands[r.Intn(len(cands))]
+			nc := r.Intn(len(b.cfgs)+1) - 1
+			if nc != c.Cfg {
+				c.Cfg = nc
+			}
+		}
+	}
 	if has("skip") {
 		kinds := []string{"Skip", "Skipf", "SkipNow"}
 		var nodes []*scen.TestNode
